@@ -1598,3 +1598,8 @@ package zygo
 //@ C18 assert packages-are-walked-by-the-package-walker @before call LookupSymbol[*]: false
 //@ C18 assert packages-are-walked-by-the-package-walker @before call lookupSymbol[*]: false
 //@ C18 assert packages-are-walked-by-the-package-walker @before call LookupSymbolUntilFunction[*]: false
+
+// C17: decoding. The record a decoder builds goes through MakeHash, whose member-by-member
+// check may reject it; the decoder does not go on with a record MakeHash rejected.
+//@ func decodeGoToSexpHelper
+//@ C17 assert rejected-record-is-not-used @before call SetHashKeyOrder[0]: err == nil
